@@ -41,9 +41,9 @@ var Scope = []string{
 }
 
 type Program struct {
-	Repo string
-	Fset *token.FileSet
-	All  []*packages.Package
+	Repo  string
+	Fset  *token.FileSet
+	All   []*packages.Package
 	byRel map[string]*packages.Package
 
 	funcs     []*Func
